@@ -13,7 +13,7 @@ pub const RULE: &str = "case = one random operation history (new / with_capacity
 
 pub const REQUIRED: &[&str] = &[
     "op.new", "op.with_capacity", "op.from_rows", "op.resize_up", "op.resize_down", "op.resize_zero", "op.reserve",
-    "op.fill", "op.row_write", "op.cell_write", "op.clone", "op.eq", "op.iter", "op.iter_rev", "op.iter_mut",
+    "op.fill", "op.row_write", "op.cell_write", "op.clone", "op.clone_from", "op.eq", "op.iter", "op.iter_rev", "op.iter_mut",
     "op.into_iter", "type.u8", "type.u32", "type.f32", "type.i64", "cols.1", "cols.5", "cols.7", "cols.16", "cols.21",
     "cols.32", "cols.43", "class.padded_stride",
 ];
@@ -266,7 +266,7 @@ pub fn history<T: Elem, C: ArrayLength + PartialEq>(case: u64, rng: &mut Rng, re
     }
 
     for _ in 0..n_ops {
-        let choice = rng.below(14);
+        let choice = rng.below(15);
         let rows = model.len();
         let res: Result<Result<(), String>, String> = guard(|| -> Result<(), String> {
             match choice {
@@ -443,6 +443,26 @@ pub fn history<T: Elem, C: ArrayLength + PartialEq>(case: u64, rng: &mut Rng, re
                     }
                     ops.push(format!("(&mut m).into_iter().rev() write column {}", col));
                     rep.cover("op.into_iter");
+                }
+                13 => {
+                    // clone_from into a matrix of another size: afterwards it is the source in every respect
+                    let other_rows = match rng.below(3) {
+                        0 => 0,
+                        1 => rows + rng.range(1, 9),
+                        _ => rng.below(rows + 1),
+                    };
+                    let mut dst = DenseMatrix::<T, C>::new(other_rows);
+                    if other_rows > 0 {
+                        let v = next_val(rng);
+                        dst.fill(v);
+                    }
+                    dst.clone_from(&m);
+                    ops.push(format!("clone_from into a {}-row matrix, continue on it", other_rows));
+                    rep.cover("op.clone_from");
+                    if !(dst == m) {
+                        return Err(format!("after clone_from a {}-row destination does not compare equal to its {}-row source", other_rows, rows));
+                    }
+                    m = dst;
                 }
                 _ => {
                     ops.push("iterate".to_string());
